@@ -309,6 +309,9 @@ pub fn run(rep: &Report) {
         (b"pw one".to_vec(), derive32(seed, "c06-salt-1")),
         ("p\u{e4}ss".as_bytes().to_vec(), derive32(seed, "c06-salt-2")),
         (vec![], derive32(seed, "c06-salt-3")),
+        (vec![b'k'; 63], derive32(seed, "c06-salt-4")),
+        (vec![b'k'; 64], derive32(seed, "c06-salt-5")),
+        (vec![b'k'; 65], derive32(seed, "c06-salt-6")),
     ];
     let pkeys: Vec<[u8; 32]> = pws.par_iter().map(|(pw, salt)| r::pass_key(pw, salt)).collect();
     let mut pjobs: Vec<(usize, usize, Vec<usize>)> = vec![];
